@@ -12,6 +12,8 @@
 //	      sender: transport MTU, IsFragmentationEnabled, IsIncomingFaceIndicationEnabled,
 //	      congestion marking on/off with threshold <thr>, nextSequence preset to <seq>;
 //	      receiver: IsReassemblyEnabled = <reasm>                                   => ok
+//	txb <id2> <id>     the SAME packet object (OutPkt / *defn.Pkt) of message <id> is sent on a second,
+//	                   never congested face as well; its frames become message <id2>      => like tx
 //	mtu <n>            LinkService.SetMTU(n) on the LIVE sending face (what management faces/update does) => ok
 //	opt <frag> <ifi>   SetOptions on the live sending face (fragmentation, incoming-face indication)   => ok
 //	tx <id> <pkthex> <tokhex|-> <itok> <mark|-> <inface|-> <cong> <hn> <hp>
@@ -168,6 +170,9 @@ func (r *recThread) GetNumCsEntries() int      { return 0 }
 type world struct {
 	stx, rtx *face.VerifTransport
 	snd, rcv *face.NDNLPLinkService
+	stxB     *face.VerifTransport // a second sending face (never congested, never reconfigured)
+	sndB     *face.NDNLPLinkService
+	outs     map[string]dispatch.OutPkt // the packet OBJECTS handed to sendPacket, for `txb`
 	thr      uint64
 	frames   map[string][][]byte
 	pkts     map[string][]byte
@@ -187,6 +192,16 @@ func (w *world) arrive(frame []byte) {
 		w.rbuf[i] = 0xAA
 	}
 	collect()
+}
+
+func framesOut(fr [][]byte) string {
+	var sb strings.Builder
+	fmt.Fprintf(&sb, "n=%d", len(fr))
+	for _, x := range fr {
+		sb.WriteByte(' ')
+		sb.WriteString(common.Hex(x))
+	}
+	return sb.String()
 }
 
 func rxOut() string {
@@ -276,7 +291,7 @@ func exec(op string) string {
 			}
 			return defn.NonLocal
 		}
-		nw := &world{frames: map[string][][]byte{}, pkts: map[string][]byte{}}
+		nw := &world{frames: map[string][][]byte{}, pkts: map[string][]byte{}, outs: map[string]dispatch.OutPkt{}}
 		nw.stx = face.VerifNewTransport(common.Atoi(f[1]), scopeOf(f[9]))
 		nw.rtx = face.VerifNewTransport(defn.MaxNDNPacketSize, scopeOf(f[10]))
 		so := face.MakeNDNLPLinkServiceOptions()
@@ -288,6 +303,11 @@ func exec(op string) string {
 		nw.thr = so.DefaultCongestionThresholdBytes
 		nw.snd = face.MakeNDNLPLinkService(nw.stx, so)
 		nw.snd.SetFaceID(11)
+		nw.stxB = face.VerifNewTransport(common.Atoi(f[1]), defn.NonLocal)
+		nw.sndB = face.MakeNDNLPLinkService(nw.stxB, so)
+		nw.sndB.SetFaceID(13)
+		// both faces' frames go to one receiver: keep their sequence ranges apart
+		face.VerifSetNextSequence(nw.sndB, common.Atou(f[7])+(1<<63))
 		face.VerifSetNextSequence(nw.snd, common.Atou(f[7]))
 		ro := face.MakeNDNLPLinkServiceOptions()
 		ro.IsReassemblyEnabled = b01(f[3])
@@ -324,13 +344,24 @@ func exec(op string) string {
 		fr := w.stx.Frames
 		w.frames[f[1]] = fr
 		w.pkts[f[1]] = append([]byte(nil), wire...)
-		var sb strings.Builder
-		fmt.Fprintf(&sb, "n=%d", len(fr))
-		for _, x := range fr {
-			sb.WriteByte(' ')
-			sb.WriteString(common.Hex(x))
+		w.outs[f[1]] = out
+		return framesOut(fr)
+	case "txb": // the SAME packet object of message <id> is sent on the second face as well
+		if w == nil || len(f) != 3 {
+			return "skip"
 		}
-		return sb.String()
+		out, ok := w.outs[f[2]]
+		if !ok {
+			return "skip"
+		}
+		w.stxB.QueueSize = 0
+		w.stxB.Frames = nil
+		face.VerifSendPacket(w.sndB, out)
+		fr := w.stxB.Frames
+		w.frames[f[1]] = fr
+		w.pkts[f[1]] = append([]byte(nil), w.pkts[f[2]]...)
+		w.outs[f[1]] = out
+		return framesOut(fr)
 	case "mtu": // management faces/update on a live face: LinkService.SetMTU
 		if w == nil || len(f) != 2 {
 			return "skip"
@@ -474,6 +505,7 @@ func gen(g *common.Gen) {
 		g.Stat("threads-" + strconv.Itoa(nth))
 		g.Stat("mtu-" + mtuClass(mtu))
 
+		mtu0 := mtu
 		nmsg := r.Range(1, 3)
 		type plan struct {
 			id string
@@ -609,6 +641,17 @@ func gen(g *common.Gen) {
 			}
 			k := len(pkt)/emin + 2
 			plans = append(plans, plan{id, k})
+			if r.Chance(1, 4) || (cong == 1 && r.Chance(1, 2)) {
+				// the same packet object also goes out on a second, uncongested face
+				eminB := mtu0 - over - 24
+				if eminB < 20 {
+					eminB = 20
+				}
+				idB := "b" + strconv.Itoa(m)
+				g.Op("txb %s %s", idB, id)
+				g.Stat("tx-second-face")
+				plans = append(plans, plan{idB, len(pkt)/eminB + 2})
+			}
 			g.Stat("planned-frames-" + fragClass((len(pkt)+e-1)/e))
 		}
 		// arrival order at the receiver
